@@ -119,7 +119,10 @@ def exportable_member(rng, depth, bit=False):
                            A.Const(b"abc", A.FixedSized(5, A.GreedyBytes)), A.Const(b"MZ", A.Prefixed(A.Alias("Int16ub"), A.GreedyBytes))])
     if r == 16: return A.Const(7, A.Alias("Int16ub"))
     if r == 17: return A.Padding(rng.choice([1, 2]))
-    if r == 18: return A.Padded(rng.choice([3, 4]), A.Alias("Byte"))
+    if r == 18:
+        if rng.random() < 0.5: return A.Padded(rng.choice([3, 4]), A.Alias("Byte"))
+        # a padded slot around a repeated or fixed member (the slot is one substream, whatever is inside)
+        return A.Padded(8, rng.choice([A.Array(3, A.Alias("Int16ub")), A.Array(2, A.Struct(A.Renamed("x", A.Alias("Byte")), A.Renamed("y", A.Alias("Int16ub")))), A.Bytes(3), A.Const(b"MZ")]))
     if r == 19: return A.Array(rng.choice([0, 1, 2, 3]), A.Alias(rng.choice(["Byte", "Int16ul"])))
     if r == 20: return A.Prefixed(A.Alias("Byte"), A.GreedyBytes, incl=rng.random() < 0.2)
     if r == 21: return A.PrefixedArray(A.Alias("Byte"), A.Alias(rng.choice(["Byte", "Int16ub"])))
@@ -290,8 +293,21 @@ def run(ctx):
             prog = progs_by_case[v["id"]]
             member = next((m for m in prog["subs"] if m.get("name") == v["at"]), None)
             scope = member["sub"] if member else prog
-            mk = sorted({n["k"] + (":includelength" if n["k"] == "Prefixed" and n.get("incl") else "") +
-                         (":bits" if n["k"] == "Array" and n["sub"]["k"] in ("Flag", "BitsInteger") else "") for n in A.walk(scope)})
+            def kinds(n, inbits):
+                out = set()
+                k = n["k"] + (":includelength" if n["k"] == "Prefixed" and n.get("incl") else "") + \
+                    (":slot" if n["k"] == "Padded" and n["sub"]["k"] in ("Array", "Bytes", "Const") else "") + \
+                    (":bits" if n["k"] == "Array" and inbits and n["sub"]["k"] in ("Flag", "BitsInteger") else "")
+                out.add(k)
+                b2 = (inbits or n["k"] in ("BitStruct", "Bitwise")) and n["k"] != "Bytewise"
+                for key in ("sub", "lenf", "then", "else", "default", "field", "cf"):
+                    if key in n and isinstance(n[key], dict):
+                        out |= kinds(n[key], b2)
+                for key in ("subs", "cv"):
+                    for x in n.get(key, []):
+                        out |= kinds(x, b2)
+                return out
+            mk = sorted(kinds(scope, prog["k"] in ("BitStruct", "Bitwise") and scope is not prog))
             culprit = next((k for k in SUSPECTS if k in mk), "other")
             ctx.report("C19." + v["why"].split(":")[0], {"why": v["why"], "kinds": mk, "member_kind": culprit},
                        {"kind": "ksy", "prog": prog, "doc": docs[c["di"] - 1], "data": c["data"], "members": c["members"], "verdict": v})
